@@ -317,3 +317,93 @@ Proof.
   - injection H2 as -> ->. exfalso. apply Hnotin. apply in_map_iff. exists (k, v). now split.
   - now apply (IH k k' v).
 Qed.
+
+(* ---------------------------------------------------------------- corners of the placement function *)
+Lemma place_nil : forall off, place off [] = ([], off).
+Proof. reflexivity. Qed.
+
+Lemma empty_record : struct_size [] = 0 /\ union_size [] = 0 /\ max_align [] = 1.
+Proof. repeat split; reflexivity. Qed.
+
+Lemma align_up_fixed : forall x a, 0 < a -> x mod a = 0 -> align_up x a = x.
+Proof.
+  intros x a Ha Hx. pose proof (align_up_spec x a Ha) as [H1 [H2 H3]].
+  pose proof (align_up_least x a x Ha (Z.le_refl x) Hx). lia.
+Qed.
+
+(* a single member sits at offset 0; a record of one member has the member's size rounded up to its alignment *)
+Lemma single_member : forall s a, 0 < a ->
+  fst (place 0 [(s, a)]) = [0] /\ snd (place 0 [(s, a)]) = s.
+Proof.
+  intros s a Ha. cbn. rewrite (align_up_fixed 0 a Ha (Z.mod_0_l a ltac:(lia))). split; reflexivity.
+Qed.
+
+(* a member of size 0 (zero-length array, empty record) occupies nothing: the next member may start at the same offset *)
+Lemma zero_size_member : forall off a r, 0 < a ->
+  place off ((0, a) :: r) = (align_up off a :: fst (place (align_up off a) r), snd (place (align_up off a) r)).
+Proof. intros off a r Ha. rewrite place_cons. now rewrite Z.add_0_r. Qed.
+
+(* the type-size functions are total only on well-formed types: a negative array length or a non-positive vector size
+   has no layout (the record then has no layout either: c_layout1 returns None, the theorems fail closed) *)
+Lemma c_sa_negative_array : forall env n t, n < 0 -> c_sa env (CArr n t) = None.
+Proof.
+  intros env n t Hn. cbn. destruct (c_sa env t) as [[s a]|]; [|reflexivity].
+  destruct (0 <=? n) eqn:E; [lia|reflexivity].
+Qed.
+Lemma py_sa_negative_array : forall env n t, n < 0 -> py_sa env (PArr n t) = None.
+Proof.
+  intros env n t Hn. cbn. destruct (py_sa env t) as [[s a]|]; [|reflexivity].
+  destruct (0 <=? n) eqn:E; [lia|reflexivity].
+Qed.
+
+(* every (size, alignment) the C type-size function returns is sane, provided the records it may refer to are *)
+Lemma assoc_in : forall {A} k (l : list (string * A)) v, assoc k l = Some v -> In (k, v) l.
+Proof.
+  induction l as [|[k' v'] r IH]; intros v H; [discriminate|]. cbn in H.
+  destruct (String.eqb k k') eqn:E.
+  - injection H as <-. apply String.eqb_eq in E. subst. now left.
+  - right. now apply IH.
+Qed.
+
+Definition env_sane (env : senv) : Prop := forall n s a, In (n, (s, a)) env -> 0 <= s /\ 0 < a.
+
+Lemma c_prim_sane : forall n k s, c_prim_info n = Some (k, s) -> 0 < s.
+Proof.
+  intros n k s H. unfold c_prim_info in H. apply assoc_in in H.
+  repeat (destruct H as [H|H]; [inversion H; subst; lia|]). destruct H.
+Qed.
+Lemma py_prim_sane : forall n k s, py_prim_info n = Some (k, s) -> 0 < s.
+Proof.
+  intros n k s H. unfold py_prim_info in H. apply assoc_in in H.
+  repeat (destruct H as [H|H]; [inversion H; subst; lia|]). destruct H.
+Qed.
+
+Lemma c_sa_sane : forall env t s a, env_sane env -> c_sa env t = Some (s, a) -> 0 <= s /\ 0 < a.
+Proof.
+  intros env t. induction t as [| n | n | t IH | r IHr args v | n t IH | n | b t IH]; intros s a He H; cbn [c_sa] in H; try discriminate.
+  - destruct (c_prim_info n) as [[k z]|] eqn:E; [|discriminate]. injection H as <- <-. apply c_prim_sane in E. lia.
+  - injection H as <- <-. lia.
+  - injection H as <- <-. lia.
+  - destruct (c_sa env t) as [[s' a']|] eqn:E; [|discriminate]. destruct (0 <=? n) eqn:En; [|discriminate].
+    injection H as <- <-. destruct (IH s' a' He eq_refl). split; [nia|lia].
+  - apply assoc_in in H. apply (He n s a H).
+  - destruct (0 <? b) eqn:Eb; [|discriminate]. injection H as <- <-. lia.
+Qed.
+
+Lemma py_sa_sane : forall env t s a, env_sane env -> py_sa env t = Some (s, a) -> 0 <= s /\ 0 < a.
+Proof.
+  intros env t. induction t as [| n | t IH | r IHr args | n t IH | c]; intros s a He H; cbn [py_sa] in H; try discriminate.
+  - destruct (py_prim_info n) as [[k z]|] eqn:E; [|discriminate]. injection H as <- <-. apply py_prim_sane in E. lia.
+  - injection H as <- <-. lia.
+  - injection H as <- <-. lia.
+  - destruct (py_sa env t) as [[s' a']|] eqn:E; [|discriminate]. destruct (0 <=? n) eqn:En; [|discriminate].
+    injection H as <- <-. destruct (IH s' a' He eq_refl). split; [nia|lia].
+  - apply assoc_in in H. apply (He c s a H).
+Qed.
+
+(* an aligned(n) attribute can only raise the alignment *)
+Lemma c_member_sa_sane : forall env m s a, env_sane env -> c_member_sa env m = Some (s, a) -> 0 <= s /\ 0 < a.
+Proof.
+  intros env m s a He H. unfold c_member_sa in H. destruct (c_sa env (cm_type m)) as [[s' a']|] eqn:E; [|discriminate].
+  injection H as <- <-. destruct (c_sa_sane env _ _ _ He E). lia.
+Qed.
